@@ -236,6 +236,14 @@ func (p *processor) process(in ion.Reader) error {
 			}
 		}
 
+		if in.Type() != ion.NullType && in.IsNull() {
+			// A typed null has no value to fetch (the accessors return nil) and cannot be stepped into.
+			if err = p.out.WriteNullType(in.Type()); err != nil {
+				return p.error(write, err)
+			}
+			continue
+		}
+
 		switch in.Type() {
 		case ion.NullType:
 			err = p.out.WriteNull()
